@@ -1,13 +1,15 @@
 #!/bin/bash
-# usage: mutest.sh <patch.diff> <PID> [tier]  -- apply a seeded change to /repo, run the check, undo
+# usage: mutest.sh <patch.diff> <PID> [tier]  -- apply a seeded change to /repo, run the check, undo (evidence restored)
 set -u
 patch=$1; pid=$2; tier=${3:-quick}
 cd /repo || exit 9
 if ! git diff --quiet; then echo "repo dirty"; exit 9; fi
 git apply "$patch" || { echo "patch does not apply"; exit 9; }
 cd /verif && cp evidence/$pid.json /tmp/ev-$pid.bak 2>/dev/null
-./check $pid --tier $tier 2>&1 | grep -E "VIOLATION|KNOWN|INCONCLUSIVE|^OK" | cut -c1-300 | head -12
-rc=${PIPESTATUS[0]}
+t0=$(date +%s)
+./check $pid --tier $tier > /tmp/mutest-$pid.log 2>&1
+rc=$?
+grep -E "VIOLATION|KNOWN|INCONCLUSIVE|^OK" /tmp/mutest-$pid.log | cut -c1-260 | head -8
 cp /tmp/ev-$pid.bak evidence/$pid.json 2>/dev/null
 git -C /repo checkout -- .
-echo "mutest rc=$rc patch=$patch"
+echo "mutest rc=$rc wall=$(( $(date +%s) - t0 ))s property=$pid patch=$patch"
